@@ -104,6 +104,9 @@ def gen_cases(seed, n_cases):
         for r, i in zip(rows, ids):
             r["subtomo_id"] = float(i)
             r["score"] = float(rng.uniform(-1, 1))
+            if rng.random() < 0.15:
+                # magnitudes that a writer prints in exponent notation (5e-05, 1.25e+16): still numbers when read back
+                r[str(rng.choice(["score", "shift_x", "shift_z"]))] = float(rng.choice([5e-05, -3.2e-06, 7.5e-07, 2.5e-05]))
         kind = ["memory", "file", "convert_fn", "import_independent"][ci % 4]
         yield (ci, kind, n), {"rows": rows, "kind": kind, "reset": bool(rng.random() < 0.5), "update": bool(rng.random() < 0.5)}
 
